@@ -41,7 +41,9 @@ def run_family(name, mk, tier):
                     if i in gid: under.setdefault(tuple(p), set()).add(gid[i])
                 for p, gset in under.items():
                     if len(gset) > 1:
-                        res["violations"].append({"what": "de-duplication leaves differently shaped types under the path %s (shape groups %s) | %s" % ("::".join(p), sorted(gset), "; ".join(describe(creg0, 14))),
+                        # a renamed member (old name + k) that lands on a name the registry already contained: the recorded C04 finding
+                        landed = {tuple(creg0[i]["path"]) for i, q in enumerate(out["paths"]) if tuple(q) == p}
+                        res["violations"].append({"digit_collision": (p in landed and len(landed) > 1), "what": "de-duplication leaves differently shaped types under the path %s (shape groups %s) | %s" % ("::".join(p), sorted(gset), "; ".join(describe(creg0, 14))),
                                                   "case": {"op": "dedup", "reg": regdsl.encode(creg0).hex()}, "ids": ids, "kind": "dedup-leaves-shapes"})
             if out["result"] == "Err":
                 res["outcome"].append(tag + "Err:" + out["err"][0])
@@ -254,6 +256,12 @@ def families(eng, tier, seed):
     for ename, efn in edits():
         for order in (0, 1): fams.append(run_family("edit-%s-o%d" % (ename, order), edit_family(ename, efn, order), tier))
     for n, mk in recursive_families() + generic_families() + release_families(): fams.append(run_family(n, mk, tier))
+    if tier == "quick":
+        # the one pair of edits that shows the recorded digit-suffix finding (a second m::W next to an existing m::W2), so that it is exercised on every run
+        E = dict(edits())
+        def both_q(reg, c):
+            E["nested-struct-other-path"](reg, c); E["struct-field-added-generic"](reg, c)
+        fams.append(run_family("edit2-nested-struct-other-path+struct-field-added-generic", edit_family("x", both_q, 0), tier))
     if tier == "thorough":
         # pairs of shape edits on the second member (the first edit of a pair may mask or unmask the second)
         E = edits()
@@ -300,7 +308,7 @@ def classify(v):
     w = v["what"]; fam = v.get("family", "")
     if "panic" in w[:20]: return "panic"
     if v.get("kind") == "other-error": return "other-error"
-    if v.get("kind") == "dedup-leaves-shapes": return "dedup-leaves-shapes:" + fam.rsplit("-o", 1)[0]
+    if v.get("kind") == "dedup-leaves-shapes": return "digit-suffix-collision" if v.get("digit_collision") else "dedup-leaves-shapes:" + fam.rsplit("-o", 1)[0]
     if "index" in w and ("variant" in fam or "versions" in fam or "index" in fam): return "variant-index-not-compared"
     return "conflation:" + fam.rsplit("-o", 1)[0]
 
